@@ -1,3 +1,18 @@
+mod c42;
+mod c43;
+mod imm;
+mod lightpanic;
+
+use pvkit::session::CheckDef;
+
 fn main() {
-    pvkit::main(&[]);
+    // isolated worker of C43 (see c43::run_in_worker)
+    let args: Vec<String> = std::env::args().collect();
+    if args.get(1).map(|s| s.as_str()) == Some("--c43-worker") {
+        c43::worker_main(&args[2..]);
+    }
+    pvkit::main(&[
+        CheckDef { id: "C42", level: "exploration", run: c42::run },
+        CheckDef { id: "C43", level: "fault_enumeration", run: c43::run },
+    ]);
 }
